@@ -73,6 +73,32 @@ def gen_cases(rng, tier):
         w['n'], w['sz'] = na + nb, na - nb
         w['vec'] = fqeio.random_state(rng, w['norb'], [(w['n'], w['sz'])], density=0.8)
         cases.append({'kind': 'reuse', 'wfn': w})
+    # "the reloaded object behaves identically in all later operations": two wavefunctions of every symmetry mode are saved
+    # and read back IN THE SAME PROCESS (and deep-copied), then a battery of operations that use every table of the
+    # restored graphs (sector-changing maps of spin-broken states included) runs on originals and reloaded objects alike
+    from props import c01
+    for k in range(9 if tier == 'quick' else 45):
+        mode = ['sb', 'ns', 'nb'][k % 3]
+        norb = 3 if (mode == 'sb' or rng.random() < 0.5) else 2
+        specs = []
+        for _w in range(2):
+            if mode == 'ns':
+                na, nb = rng.randint(0, norb), rng.randint(0, norb)
+                nn, sz = na + nb, na - nb
+            elif mode == 'sb':
+                nn, sz = rng.choice([2, 3, 3, 4] if norb == 3 else [1, 2, 3]), 0     # three or more s_z sectors
+            else:
+                nn, sz = 0, rng.randint(-norb + 1, norb - 1)
+            keys = fqeio.sector_keys(norb, mode, nn, sz)
+            specs.append({'norb': norb, 'mode': mode, 'n': nn, 'sz': sz, 'vec': fqeio.random_state(rng, norb, keys, density=0.8, amp=2)})
+        if mode == 'ns':
+            ham = c01.gen_ham(rng, 'restricted', 2, norb, 'sparse', False, True)
+        elif mode == 'sb':
+            ham = c01.gen_ham(rng, 'gso', rng.choice([1, 2]), norb, 'dense' if norb == 2 else 'sparse', False, True)
+        else:
+            ham = {'cls': 'fop', 'rank': 0, 'entries': c01.gen_fop_terms(rng, norb, number_breaking=True, nterms=rng.randint(3, 5)),
+                   'e0': [0, 0], 'real': False}
+        cases.append({'kind': 'reuse2', 'specs': specs, 'ham': ham})
     return cases
 
 
@@ -202,6 +228,47 @@ def run_impl(case, mode):
             rb = numpy.asarray(n.rdm('i^ j')).tolist()
             return {'same_sig': _sig(w) == _sig(n), 'apply_same': a == b, 'rdm_same': str(ra) == str(rb),
                     'add_ok': fqeio.read_state(w + n) == fqeio.read_state(w + w)}
+        if case['kind'] == 'reuse2':
+            from props import c01
+            norb = case['specs'][0]['norb']
+            origs = [_mk(sp) for sp in case['specs']]
+            for i, w in enumerate(origs):
+                w.save('r%d.wfn' % i, path=base)
+            loaded = []
+            for i in range(len(origs)):
+                n = fqe.wavefunction.Wavefunction()
+                n.read('r%d.wfn' % i, path=base)
+                loaded.append(n)
+            copies = [copy.deepcopy(n) for n in loaded]
+            ham = c01.build_ham(case['ham'], norb)
+            if case['ham']['cls'] == 'fop':
+                ham = fqe.get_hamiltonian_from_openfermion(ham, norb=norb, conserve_number=False)
+
+            def battery(w):
+                out = {}
+                for name, fn in (('apply', lambda: fqeio.read_state(w.apply(ham))),
+                                 ('evolve', lambda: fqeio.read_state(w.time_evolve(0.1, ham))),
+                                 ('expect', lambda: repr(complex(w.expectationValue(ham)))),
+                                 ('rdm1', lambda: numpy.asarray(w.rdm('i^ j')).tolist()),
+                                 ('rdm2', lambda: numpy.asarray(w.rdm('i^ j^ k l')).tolist()),
+                                 ('cirq', lambda: [repr(complex(x)) for x in fqe.to_cirq(w)]),
+                                 ('apply2', lambda: fqeio.read_state(w.apply(ham).apply(ham)))):
+                    try:
+                        out[name] = fn()
+                    except Exception as e:  # noqa
+                        out[name] = 'exc:' + type(e).__name__
+                return out
+            ref = [battery(w) for w in origs]
+            diffs = []
+            for tag, objs in (('reloaded', loaded), ('deep copy of reloaded', copies), ('reloaded, second use', loaded)):
+                for i, w in enumerate(objs):
+                    b = battery(w)
+                    for name in ref[i]:
+                        if str(b[name]) != str(ref[i][name]):
+                            diffs.append('%s object %d: %s differs from the original object (%s... vs %s...)'
+                                         % (tag, i, name, str(b[name])[:60], str(ref[i][name])[:60]))
+            return {'same_sig': all(_sig(a) == _sig(b) for a, b in zip(origs, loaded)), 'diffs': diffs[:4], 'ndiff': len(diffs),
+                    'nontrivial': any(isinstance(r['apply'], list) and len(r['apply']) > 1 for r in ref)}
     finally:
         os.chdir('/')
         shutil.rmtree(base, ignore_errors=True)
@@ -269,6 +336,11 @@ def compare(case, got, exp, mode):
         for k in ('same_sig', 'apply_same', 'rdm_same', 'add_ok'):
             if not got[k]:
                 bad.append('reloaded wavefunction differs from the original: %s' % k)
+        return bad
+    if case['kind'] == 'reuse2':
+        if not got['same_sig']:
+            bad.append('reloaded wavefunction differs from the saved one (flags / sectors / coefficients)')
+        bad += got['diffs']
         return bad
     return bad
 
